@@ -366,6 +366,7 @@ class Merge(Expr):
                     right_index,
                     self.suffixes,
                     self.indicator,
+                    _broadcast_side=self.broadcast_side,
                 )
 
         shuffle_npartitions = self.operand("_npartitions") or max(
@@ -697,6 +698,7 @@ class BroadcastJoin(Merge, PartitionsFiltered):
         "suffixes",
         "indicator",
         "_partitions",
+        "_broadcast_side",
     ]
     _defaults = {
         "how": "inner",
@@ -707,7 +709,17 @@ class BroadcastJoin(Merge, PartitionsFiltered):
         "suffixes": ("_x", "_y"),
         "indicator": False,
         "_partitions": None,
+        "_broadcast_side": None,
     }
+
+    @functools.cached_property
+    def broadcast_side(self):
+        # The side was chosen by ``Merge._lower`` before the other operand was
+        # repartitioned to ``npartitions``; partition counts may no longer tell.
+        side = self.operand("_broadcast_side")
+        if side is not None:
+            return side
+        return "left" if self.left.npartitions < self.right.npartitions else "right"
 
     def _divisions(self):
         # The result is partitioned like the operand that is not broadcast and carries
